@@ -2,6 +2,7 @@
    Input (one command per line):
      H n                              fresh store, sequence counter n
      W k=v,k=~,...                    write batch                 -> "W acc"
+     I id:sz:e,e                      ingest of an external sst   -> "I acc"
      F id sz                          flush                       -> "F e,e,e" (entries of the new file)
      C lo up first last ids | files   compaction chosen + outputs -> "C valid outok wf <shape slice rest range closed ids> gcok is_gc accepted"
      R id sz seq | levels             reopen into given version   -> "R sub1 sub2 wf ord ts"
@@ -73,6 +74,13 @@ let () =
            let acc = acceptedb !s o in
            s := step !s o;
            print_endline ("W " ^ b acc)
+         | 'I' ->
+           (* external ingest: I id:sz:entries *)
+           let f = parse_file rest in
+           let o = OIngest f in
+           let acc = acceptedb !s o in
+           s := step !s o;
+           print_endline ("I " ^ b acc)
          | 'F' ->
            (match split ' ' rest with
             | [id; sz] ->
